@@ -104,4 +104,21 @@ theorem file_extents_inside_and_disjoint (w : World) (root : Path) (ps3 : Bool) 
   have := consec_bounds _ _ wf.consec f hf
   rw [wf.padStart]
   exact this
+
+
+/-- **Every sector number of a generated image fits the 32-bit fields that carry it** (and the
+    server's int32 arithmetic): for every tree the server accepts, the volume — metadata, files and
+    padding — ends at or below sector 2^31−1; a tree that would not fit is refused at open. -/
+theorem volume_fits (w : World) (root : Path) (ps3 : Bool) (L : Layout) (h : layoutOf w root ps3 = some L) :
+    L.volSectors ≤ maxSector ∧ L.filesLBA ≤ L.volumeSize ∧ L.volumeSize < L.volSectors ∧ maxSector < 2 ^ 32 := by
+  have F := Proof.BuildWF.layoutOf_facts w root ps3 L h
+  have hp := pad_rule L.volumeSize
+  have hb : Gen.fs_basePadSectors = 32 := rfl
+  have hfit := F.fits
+  obtain ⟨e, _, hv⟩ := F.run
+  rw [hb] at hfit
+  refine ⟨?_, by omega, ?_, by decide⟩
+  · rw [F.vol, F.pad]; omega
+  · rw [F.vol, F.pad]; omega
+
 end Ps3.Props.C08
